@@ -140,3 +140,111 @@ Print Assumptions c11_ser_ok_full.
 Print Assumptions c11_example_fin_parses.
 Print Assumptions c11_example_fin_ok.
 Print Assumptions c11_example_fin_serialises.
+
+(* ================================================================================================
+   The connection-level clause: "every datagram the library emits carries version 1 and the
+   connection id owed to that direction, and is well-formed".
+   Conn/C11_Pred.v: c11_packet_ok / c11_emitted_ok (boolean, evaluated on implementation traces);
+   Conn/C11_Proofs.v: the invariant J and its preservation by every function of the poll.
+   Hypothesis c11_config_ok: the three configuration fields that become header fields (the initial
+   sequence number, the remote sequence number and the remote connection id) are u16 values — in the
+   Rust code they have type u16 (SeqNr); vconfig_ok (C10) implies it.  Nothing is assumed about the
+   messages delivered, the transport's answers or the congestion controller. *)
+From Utp Require Import Rtt.Rtte Mtu.SegSizes Rx.Rx Tx.Ring Tx.Segments Conn.Recovery Conn.Msg Conn.VSockRec
+  Conn.VSock Conn.VSockRun Conn.VObs Conn.VSock_Lemmas Conn.C11_Pred Conn.C11_Proofs.
+
+(* the invariant: holds of every new connection ... *)
+Theorem c11_inv_initial : forall (CC : Type) (cci : cc_iface CC) (cfg : vconfig),
+  c11_config_ok cfg = true ->
+  forall (mk : Z -> Z -> CC) (s0 : vsock CC), vsock_new cci mk cfg = Some s0 -> J cfg s0.
+Proof. exact @vsock_new_J. Qed.
+
+(* ... is kept by every event, and every step from a state satisfying it emits only well-formed datagrams *)
+Theorem c11_emitted_ok_every_step : forall (CC : Type) (cci : cc_iface CC) (cfg : vconfig),
+  c11_config_ok cfg = true ->
+  forall (s : vsock CC) (o : vop),
+  J cfg s -> J cfg (vstep_state cci s o) /\ c11_emitted_ok cfg (VSock_Lemmas.fstep_of cci s o) = true.
+Proof. exact @c11_emitted_ok_step. Qed.
+
+Theorem c11_emitted_ok_every_trace : forall (CC : Type) (cci : cc_iface CC) (cfg : vconfig),
+  c11_config_ok cfg = true ->
+  forall (mk : Z -> Z -> CC) (s0 : vsock CC) (ops : list vop),
+  vsock_new cci mk cfg = Some s0 -> forallb (c11_emitted_ok cfg) (ftrace cci s0 ops) = true.
+Proof. exact @c11_emitted_ok_trace. Qed.
+
+(* a connection itself emits only ST_DATA, ST_FIN, ST_STATE (ST_SYN / ST_RESET are the dispatcher's) *)
+Theorem c11_conn_types_ok_every_step : forall (CC : Type) (cci : cc_iface CC) (cfg : vconfig),
+  c11_config_ok cfg = true ->
+  forall (s : vsock CC) (o : vop),
+  J cfg s -> c11_conn_types_ok cfg (VSock_Lemmas.fstep_of cci s o) = true.
+Proof. exact @c11_conn_types_ok_step. Qed.
+
+Theorem c11_conn_types_ok_every_trace : forall (CC : Type) (cci : cc_iface CC) (cfg : vconfig),
+  c11_config_ok cfg = true ->
+  forall (mk : Z -> Z -> CC) (s0 : vsock CC) (ops : list vop),
+  vsock_new cci mk cfg = Some s0 -> forallb (c11_conn_types_ok cfg) (ftrace cci s0 ops) = true.
+Proof. exact @c11_conn_types_ok_trace. Qed.
+
+(* function-level: one poll, whatever it returns (Pending, Ready, error, panic) *)
+Theorem c11_poll_keeps_inv : forall (CC : Type) (cci : cc_iface CC) (cfg : vconfig),
+  u16 (conn_id_send_of cfg) ->
+  forall (s s' : vsock CC) (r : poll_result),
+  poll cci s = (s', r) -> J cfg (poll_init s) -> J cfg s'.
+Proof. exact @poll_J. Qed.
+
+(* what the predicate says about one datagram, in wire terms: `serialize` writes it with version nibble 1
+   and the type nibble of its type, and `deserialize` of those bytes followed by any payload returns the
+   very header the connection built and the boundary right behind it (so c11_roundtrip applies) *)
+Theorem c11_packet_ok_on_the_wire : forall (cfg : vconfig) (q : fpacket) (buflen : Z) (payload : list Z),
+  c11_packet_ok cfg q = true ->
+  ser_len (hdr_of_chdr (fq_hdr q)) <= buflen -> bytes_okb payload = true ->
+  exists bs, serialize (hdr_of_chdr (fq_hdr q)) buflen = Some bs /\
+             Zlength bs = ser_len (hdr_of_chdr (fq_hdr q)) /\
+             nth 0 bs 0 mod 16 = 1 /\
+             nth 0 bs 0 / 16 = type_to_number (ch_type (fq_hdr q)) /\
+             deserialize (bs ++ payload) = Some (hdr_of_chdr (fq_hdr q), ser_len (hdr_of_chdr (fq_hdr q))).
+Proof. exact packet_ok_on_the_wire. Qed.
+
+Theorem c11_packet_ok_payload_rule : forall (cfg : vconfig) (q : fpacket),
+  c11_packet_ok cfg q = true -> 0 <= fq_plen q /\ (0 < fq_plen q <-> ch_type (fq_hdr q) = ST_DATA).
+Proof. exact packet_ok_payload_rule. Qed.
+
+Theorem c11_packet_ok_conn_id : forall (cfg : vconfig) (q : fpacket),
+  c11_packet_ok cfg q = true -> ch_conn_id (fq_hdr q) = expected_conn_id cfg (ch_type (fq_hdr q)).
+Proof. exact packet_ok_conn_id. Qed.
+
+(* non-vacuity: a reachable trace with an ST_DATA, an ST_STATE carrying a SACK and an ST_FIN, all accepted;
+   and packets the predicate rejects *)
+Theorem c11_emitted_ok_nonvacuous :
+  c11_config_ok ex_cfg = true /\
+  forallb (c11_emitted_ok ex_cfg) ex_trace = true /\
+  emits_kind (fun q => ptype_eqb (ch_type (fq_hdr q)) ST_DATA && (fq_plen q =? 100) &&
+                       (ch_conn_id (fq_hdr q) =? 2066)) ex_trace = true /\
+  emits_kind (fun q => ptype_eqb (ch_type (fq_hdr q)) ST_STATE &&
+                       match ch_sack (fq_hdr q) with Some _ => true | None => false end) ex_trace = true /\
+  emits_kind (fun q => ptype_eqb (ch_type (fq_hdr q)) ST_FIN) ex_trace = true.
+Proof. exact c11_emitted_nonvacuous. Qed.
+
+Theorem c11_packet_ok_discriminates :
+  c11_packet_ok ex_cfg (ex_pkt ST_STATE 2066 101 None 0) = true /\
+  c11_packet_ok ex_cfg (ex_pkt ST_STATE 2065 101 None 0) = false /\
+  c11_packet_ok ex_cfg (ex_pkt ST_SYN 2065 101 None 0) = true /\
+  c11_packet_ok ex_cfg (ex_pkt ST_SYN 2066 101 None 0) = false /\
+  c11_packet_ok ex_cfg (ex_pkt ST_DATA 2066 101 None 0) = false /\
+  c11_packet_ok ex_cfg (ex_pkt ST_STATE 2066 101 None 3) = false /\
+  c11_packet_ok ex_cfg (ex_pkt ST_FIN 2066 65536 None 0) = false /\
+  c11_packet_ok ex_cfg (ex_pkt ST_STATE 2066 101 (Some {| sk_bits := repeat false 64; sk_len := 64 |}) 0) = true /\
+  c11_packet_ok ex_cfg (ex_pkt ST_STATE 2066 101 (Some {| sk_bits := repeat false 64; sk_len := 32 |}) 0) = false.
+Proof. exact c11_packet_ok_rejects. Qed.
+
+Print Assumptions c11_inv_initial.
+Print Assumptions c11_emitted_ok_every_step.
+Print Assumptions c11_emitted_ok_every_trace.
+Print Assumptions c11_conn_types_ok_every_step.
+Print Assumptions c11_conn_types_ok_every_trace.
+Print Assumptions c11_poll_keeps_inv.
+Print Assumptions c11_packet_ok_on_the_wire.
+Print Assumptions c11_packet_ok_payload_rule.
+Print Assumptions c11_packet_ok_conn_id.
+Print Assumptions c11_emitted_ok_nonvacuous.
+Print Assumptions c11_packet_ok_discriminates.
